@@ -14,6 +14,9 @@ pub use cache::Cache;
 pub use iter::Iter;
 pub use mapref::EntryRef;
 
+#[cfg(mini_moka_verif)]
+pub use base_cache::{VerifDeque, VerifEntryMeta};
+
 /// Provides extra methods that will be useful for testing.
 pub trait ConcurrentCacheExt<K, V> {
     /// Performs any pending maintenance operations needed by the cache.
